@@ -39,6 +39,7 @@ View == <<rsvars, obj>>
 \*   a, b : compatible (1 and 3 rows)          n : a field renamed        t : a field's type changed
 \*   o    : same fields, opposite byte order   s : a sub-array shape changed
 \*   f    : the last field missing             r : two fields swapped
+\*   v, w : same fields, byte order differing per field class (RecStore!MixedOrders)
 ChunkOf(id) ==
     CASE id = "a" -> [descr |-> <<"D", "lt">>, rows |-> <<11>>]
       [] id = "b" -> [descr |-> <<"D", "lt">>, rows |-> <<21, 22, 23>>]
@@ -49,6 +50,8 @@ ChunkOf(id) ==
       [] id = "f" -> [descr |-> <<"F", "lt">>, rows |-> <<71, 72>>]
       [] id = "r" -> [descr |-> <<"R", "lt">>, rows |-> <<81>>]
       [] id = "g" -> [descr |-> <<"D", "lt">>, rows |-> <<901>>]        \* compatible, BIG: one block token
+      [] id = "v" -> [descr |-> <<"D", "vg">>, rows |-> <<55, 56>>]     \* same fields, only the sub-array fields big-endian
+      [] id = "w" -> [descr |-> <<"D", "sg">>, rows |-> <<58>>]         \* same fields, only the scalar fields big-endian
 NoChunk == [descr |-> NoDescr, rows |-> <<>>]
 
 \* `err` is the outcome the specification chose (the harness ignores it: it records the real one)
@@ -140,6 +143,14 @@ Fold(p, k) ==
                 [] e.op \in {"hwrite", "append"}           -> prev \o e.chunk.rows
                 [] OTHER                                   -> prev
 ConcatHistInv == KeepHist => \A p \in Paths : files[p].rows = Fold(p, Len(hist)) /\ cat[p] = Fold(p, Len(hist))
+
+\* byte order never decides the fate of an append to a text file: whatever the order of the chunk (uniform or mixed per
+\* field class), Compat says "yes" - the only outcome is the value-correct append (a theorem on the catalogue)
+TextOrderFree == \A p \in Paths : (files[p].st = "ok" /\ files[p].delim # "none") =>
+                    \A id \in ChunkIds : LET c == ChunkOf(id) IN
+                       c.descr[1] = files[p].descr[1] =>
+                          /\ c.descr[2] \in Orders /\ Compat(files[p], c) = "yes"
+                          /\ AppendOutcomes(files[p], c, "none") = {[file |-> Appended(files[p], c), err |-> "none"]}
 
 \* ---- export ------------------------------------------------------------------------------
 Export == (KeepHist /\ hist # <<>> /\ (ExportAt = 0 \/ Len(hist) = ExportAt)) => PrintT(<<"BEH", ToJson(hist)>>)
